@@ -60,6 +60,7 @@ class Sim:
         self.sig: List[str] = []
         self.ephemeral = 40000
         self.next_tag: Any = None
+        self.iteration_hooks: List[Callable[[], None]] = []
         self.wall_watchers: List[Callable[[], None]] = []
         self.app_reads: List[tuple] = []
         self.exc_handler_calls: List[dict] = []
@@ -148,6 +149,8 @@ class SimSelector(selectors._BaseSelectorImpl):
         sim.selects += 1
         if sim.selects > sim.MAX_SELECTS:
             raise SimCapExceeded("select() cap exceeded")
+        for hook in sim.iteration_hooks:
+            hook()                      # invariants sampled once per loop iteration, between callbacks
         while True:
             sim.run_due()
             ready = []
